@@ -73,6 +73,11 @@ func genC01(tier string, run int, r *simcore.Rand) *harness.Plan {
 	}
 	nblobs := r.Range(2, 14)
 	specs := sim.GenBlobSpecs(r, nblobs, maxSize)
+	if hasType(root, "cond") && r.Bool(0.3) {
+		// beyond what a schema blob may measure (1 MiB): the cond store's
+		// schema sniffer stops reading there and must hand on the rest
+		specs[r.Intn(len(specs))].Size = (1 << 20) + 2 + r.Intn(200000)
+	}
 	pool := make([]*sim.TBlob, len(specs))
 	for i, sp := range specs {
 		pool[i] = sim.Materialise(sp)
